@@ -38,8 +38,7 @@
 (***************************************************************************)
 EXTENDS Integers, Sequences, FiniteSets, TLC
 
-CONSTANTS Calls,       \* set of calls explored by the model checker
-          SC           \* continuous values are integers in units of 1/SC
+CONSTANTS SC           \* continuous values are integers in units of 1/SC
 
 VARIABLES call,        \* the call being served: Seq(group)
           res,         \* results returned so far, one per group, in order
@@ -133,8 +132,10 @@ WellFormed(g) ==
   /\ g.kind = "cont" => \A d \in Dims(g) : g.lo[d] < g.hi[d]
 
 --------------------------------------------------------------------------------
-Init == /\ call \in Calls /\ \A k \in DOMAIN call : WellFormed(call[k])
-        /\ res = <<>> /\ act = [op |-> "init"]
+\* the calls explored are chosen by the instantiating module (ActionSel_MC: grids; ActionSel_Trace:
+\* the calls made on the real agents)
+InitWith(c) == /\ call = c /\ \A k \in DOMAIN c : WellFormed(c[k])
+               /\ res = <<>> /\ act = [op |-> "init"]
 
 Next1 == Len(res) + 1                       \* the group served next
 Select(o) ==
@@ -158,7 +159,6 @@ SelectDiscrete   == Next1 <= Len(call) /\ call[Next1].kind = "disc" /\ \E o \in 
 SelectBits       == Next1 <= Len(call) /\ call[Next1].kind = "bits" /\ \E o \in Candidates(call[Next1]) : Select(o)
 SelectContinuous == Next1 <= Len(call) /\ call[Next1].kind = "cont" /\ \E o \in Candidates(call[Next1]) : Select(o)
 Next == SelectDiscrete \/ SelectBits \/ SelectContinuous
-Spec == Init /\ [][Next]_vars
 
 --------------------------------------------------------------------------------
 (* Properties (C14), stated on what was returned.                           *)
@@ -166,27 +166,32 @@ Served == DOMAIN res
 Rows(k) == DOMAIN call[k].rows
 Free(k, i) == ~Flagged(call[k].rows[i])
 
+\* row-level clauses (a = returned action of the row, cl = its per-dimension bound classes)
+LegalRow(g, r, a) ==
+  CASE g.kind = "disc" -> /\ Len(a) = Len(g.sizes)
+                          /\ \A c \in DOMAIN g.sizes : /\ a[c] \in 0..(g.sizes[c] - 1)
+                                                       /\ r.mask[Off(g.sizes, c) + a[c] + 1] = 1
+    [] g.kind = "bits" -> /\ Len(a) = g.sizes[1]
+                          /\ \A b \in 1..g.sizes[1] : a[b] \in {0, 1} /\ (r.mask[b] = 0 => a[b] = 0)
+    [] OTHER -> TRUE
+GreedyRow(g, r, a) ==
+  (g.kind = "disc" /\ r.explore = 0) =>
+     \A c \in DOMAIN g.sizes : \A j \in 0..(g.sizes[c] - 1) :
+        r.mask[Off(g.sizes, c) + j + 1] = 1 => r.q[Off(g.sizes, c) + j + 1] <= r.q[Off(g.sizes, c) + a[c] + 1]
+InBoundsRow(g, a, cl) ==
+  (g.kind = "cont" /\ g.req # "free") =>
+     /\ Len(a) = Len(g.lo) /\ Len(cl) = Len(g.lo)
+     /\ \A d \in Dims(g) : /\ cl[d] = 0
+                           /\ a[d] # OffGrid => (g.lo[d] <= a[d] /\ a[d] <= g.hi[d])
+
 \* a valid index of the space, and never a masked one
-Legal == \A k \in Served : LET g == call[k]  o == res[k] IN
-  /\ g.kind = "disc" => \A i \in Rows(k) : Free(k, i) => \A c \in DOMAIN g.sizes :
-        /\ o.outs[i][c] \in 0..(g.sizes[c] - 1)
-        /\ g.rows[i].mask[Off(g.sizes, c) + o.outs[i][c] + 1] = 1
-  /\ g.kind = "bits" => \A i \in Rows(k) : Free(k, i) => \A b \in 1..g.sizes[1] :
-        /\ o.outs[i][b] \in {0, 1}
-        /\ g.rows[i].mask[b] = 0 => o.outs[i][b] = 0
+Legal == \A k \in Served : \A i \in Rows(k) : Free(k, i) => LegalRow(call[k], call[k].rows[i], res[k].outs[i])
 
 \* with exploration off no allowed action is valued higher than the chosen one
-GreedyIsBestAllowed == \A k \in Served : LET g == call[k]  o == res[k] IN
-  g.kind = "disc" => \A i \in Rows(k) : (Free(k, i) /\ g.rows[i].explore = 0) => \A c \in DOMAIN g.sizes :
-        \A j \in 0..(g.sizes[c] - 1) :
-           g.rows[i].mask[Off(g.sizes, c) + j + 1] = 1
-             => g.rows[i].q[Off(g.sizes, c) + j + 1] <= g.rows[i].q[Off(g.sizes, c) + o.outs[i][c] + 1]
+GreedyIsBestAllowed == \A k \in Served : \A i \in Rows(k) : Free(k, i) => GreedyRow(call[k], call[k].rows[i], res[k].outs[i])
 
 \* deterministic learners and evaluation-mode policies stay inside the per-dimension bounds
-InBounds == \A k \in Served : LET g == call[k]  o == res[k] IN
-  (g.kind = "cont" /\ g.req # "free") => \A i \in Rows(k) : Free(k, i) => \A d \in Dims(g) :
-        /\ o.cls[i][d] = 0
-        /\ o.outs[i][d] # OffGrid => (g.lo[d] <= o.outs[i][d] /\ o.outs[i][d] <= g.hi[d])
+InBounds == \A k \in Served : \A i \in Rows(k) : Free(k, i) => InBoundsRow(call[k], res[k].outs[i], res[k].cls[i])
 
 \* one action per observation of the batch
 BatchShape == \A k \in Served : LET g == call[k]  o == res[k] IN
